@@ -89,7 +89,7 @@ def _const_hp(name: str) -> Callable[[dict[str, Any]], bool]:
         s = p['hps'][name]
         if 'c' in s:
             return False
-        v = s['vals'][0] if s['f'] == 'cycle' else s['cap']
+        v = s['vals'][0] if s['f'] in ('cycle', 'ext') else s['cap']
         p['hps'][name] = {'c': v}
         return True
     return f
